@@ -6,12 +6,18 @@ package main
 // Model/Graph.v and the map vocabulary of Model/ChanGenLib.v.
 //
 // The translator is a small compiler for the imperative fragment these methods are written in.
+// Before it runs, every method is NORMALISED (chancode_norm.go): parameters renamed by position to the
+// names of the Gallina signature, locals that would clash with Gallina renamed, result-less helpers of the
+// same file inlined, switch / else-if / `continue` / negated tests brought to one shape — so that a
+// behaviour-preserving rewrite of these kinds gives the same text (up to bound names) as the original.
 // State: the receiver's fields (maps keyed by node key, one bool), threaded as the variable
 // [ch]; every statement rebinds it.  Recognised statements:
-//   if C { … }   [else { … }]        C built from  ch.F  !x  x == const  _, ok := ch.M[k]; ok / !ok
+//   if C { … }   [else { … }]        C built from  ch.F  !x  x == const  _, ok := ch.M[k]; <test on ok>  a && b  a || b
 //                                     len(x) == n   isStream   v.(streamReader) ok-test
+//                                     recv.helper(…) / helper(…) returning one bool without changing the channel
+//   _, ok := ch.M[k]     flag := C    (statements of their own: a let-bound flag read off the state there)
 //   ch.M[k] = e      ch.F = e      delete(ch.M, k)      x = e (bool flag)      x := e
-//   for k, v := range <param>  { … continue … }            fold over the argument
+//   for k, v := range <param>  { … }                        fold over the argument (continue: removed by the normalisation)
 //   for _, k := range <param>  { … }                        fold over the argument
 //   for _, s := range ch.M { if C(s) { return R } }         search  -> m_any
 //   for _, s := range ch.M { if C(s) { flag = false; break } }   flag  -> m_any
@@ -29,19 +35,26 @@ package main
 // channel operations of Model/Graph.v that the C01/C02 theorems are about.
 
 import (
+	_ "embed"
 	"fmt"
 	"go/ast"
 	"go/token"
 	"go/types"
+	"path/filepath"
 	"strings"
 )
 
+// The neutral file written when the source shape is not recognised: the translation of the tree the agreement
+// proofs of Proofs/GenAgreeChan.v were written against (tools/go2v/chancode_neutral/ChanCode.v, refreshed by
+// tools/go2v/chancode_neutral/refresh.sh), marked tie_available = false — the agreement file keeps compiling
+// ("translator tie unavailable", not an alarm); only a RECOGNISED source that means something else breaks it.
+//
+//go:embed chancode_neutral/ChanCode.v
+var chanNeutralFile string
+
 func init() {
 	register("chancode", extractChanCode)
-	registerFallback("chancode", "ChanCode.v", "(* Gen/ChanCode.v — translator tie UNAVAILABLE: tools/go2v (extractor \"chancode\") did not recognise the\n"+
-		"   shape of compose/dag.go / compose/pregel.go; the model's own operations are re-exported. *)\n"+
-		"From Eino Require Import Base.Util Model.Graph Model.ChanGenLib.\n\n"+
-		"Definition tie_available : bool := false.\n")
+	registerFallback("chancode", "ChanCode.v", chanNeutralFile)
 }
 
 type chanTr struct {
@@ -52,7 +65,11 @@ type chanTr struct {
 	method   string
 	deferred string // Gallina function chan -> chan applied at returns ("" = none)
 	locals   map[string]string // local name -> kind: "bool", "vlist"
-	retKind  string            // "state" | "state_bool" | "get"
+	retKind  string            // "state" | "state_bool" | "get" | "bool" (a helper used in a condition)
+	ctx      *chanNormCtx      // where helpers are looked up (chancode_norm.go)
+	subst    map[string]string // the `ok` of `if _, ok := ch.M[k]; …` / `if sr, ok := v.(streamReader); …` -> its Gallina meaning
+	mergeVal string            // names bound by `v, err := mergeValues(l)`
+	mergeErr string
 }
 
 func (t *chanTr) fieldOf(e ast.Expr) (string, bool) {
@@ -99,8 +116,15 @@ func (t *chanTr) cond(e ast.Expr) (string, error) {
 		if x.Name == "true" || x.Name == "false" {
 			return x.Name, nil
 		}
+		if r, ok := t.subst[x.Name]; ok {
+			return r, nil
+		}
 		if t.locals[x.Name] == "bool" || t.params[x.Name] == "bool" {
 			return x.Name, nil
+		}
+	case *ast.CallExpr:
+		if s, ok, err := t.boolHelper(x); ok || err != nil {
+			return s, err
 		}
 	case *ast.SelectorExpr:
 		if f, ok := t.fieldOf(x); ok && f == "skipped" {
@@ -112,6 +136,20 @@ func (t *chanTr) cond(e ast.Expr) (string, error) {
 			return "(negb " + s + ")", err
 		}
 	case *ast.BinaryExpr:
+		if x.Op == token.LAND || x.Op == token.LOR {
+			a, err := t.cond(x.X)
+			if err != nil {
+				return "", err
+			}
+			b, err := t.cond(x.Y)
+			if err != nil {
+				return "", err
+			}
+			if x.Op == token.LAND {
+				return "(andb " + a + " " + b + ")", nil
+			}
+			return "(orb " + a + " " + b + ")", nil
+		}
 		if x.Op == token.EQL || x.Op == token.NEQ {
 			wrap := func(s string) string {
 				if x.Op == token.NEQ {
@@ -126,7 +164,7 @@ func (t *chanTr) cond(e ast.Expr) (string, error) {
 						if f, ok := t.fieldOf(call.Args[0]); ok {
 							return wrap("(Nat.eqb (List.length " + t.get(f) + ") " + bl.Value + ")"), nil
 						}
-						if id, ok := call.Args[0].(*ast.Ident); ok && t.locals[id.Name] == "vlist" {
+						if id, ok := call.Args[0].(*ast.Ident); ok && (t.locals[id.Name] == "vlist" || t.params[id.Name] == "keylist") {
 							return wrap("(Nat.eqb (List.length " + id.Name + ") " + bl.Value + ")"), nil
 						}
 					}
@@ -144,7 +182,7 @@ func (t *chanTr) cond(e ast.Expr) (string, error) {
 }
 
 // `_, ok := ch.M[k]` -> (field, key)
-func (t *chanTr) okLookup(s ast.Stmt) (field, key string, ok bool) {
+func (t *chanTr) okLookup(s ast.Stmt) (field, key, okName string, ok bool) {
 	as, isAs := s.(*ast.AssignStmt)
 	if !isAs || as.Tok != token.DEFINE || len(as.Lhs) != 2 || len(as.Rhs) != 1 {
 		return
@@ -152,7 +190,8 @@ func (t *chanTr) okLookup(s ast.Stmt) (field, key string, ok bool) {
 	if id, isId := as.Lhs[0].(*ast.Ident); !isId || id.Name != "_" {
 		return
 	}
-	if id, isId := as.Lhs[1].(*ast.Ident); !isId || id.Name != "ok" {
+	okId, isId := as.Lhs[1].(*ast.Ident)
+	if !isId || okId.Name == "_" {
 		return
 	}
 	ix, isIx := as.Rhs[0].(*ast.IndexExpr)
@@ -164,7 +203,7 @@ func (t *chanTr) okLookup(s ast.Stmt) (field, key string, ok bool) {
 	if !isF || !isK {
 		return
 	}
-	return f, k.Name, true
+	return f, k.Name, okId.Name, true
 }
 
 // `sr, ok := v.(streamReader)` -> v
@@ -182,6 +221,19 @@ func streamAssert(s ast.Stmt) (string, bool) {
 		return "", false
 	}
 	return id.Name, true
+}
+
+// `sr, ok := v.(streamReader)` -> v, ok
+func streamAssertOk(s ast.Stmt) (string, string, bool) {
+	v, ok := streamAssert(s)
+	if !ok {
+		return "", "", false
+	}
+	id, ok := s.(*ast.AssignStmt).Lhs[1].(*ast.Ident)
+	if !ok || id.Name == "_" {
+		return "", "", false
+	}
+	return v, id.Name, true
 }
 
 func isCallNamed(s ast.Stmt, name string) (*ast.CallExpr, bool) {
@@ -231,28 +283,66 @@ func containsReturn(n ast.Node) bool {
 // the condition of an if statement, including the `_, ok := …; ok` and `sr, ok := v.(streamReader); ok` forms
 func (t *chanTr) ifCond(is *ast.IfStmt) (string, error) {
 	if is.Init != nil {
-		neg := false
-		c := is.Cond
-		if u, ok := c.(*ast.UnaryExpr); ok && u.Op == token.NOT {
-			neg, c = true, u.X
-		}
-		if id, ok := c.(*ast.Ident); !ok || id.Name != "ok" {
-			return "", fmt.Errorf("%s: if with init whose condition is not ok / !ok", t.method)
-		}
-		var s string
-		if f, k, ok := t.okLookup(is.Init); ok {
-			s = "(m_has " + k + " " + t.get(f) + ")"
-		} else if v, ok := streamAssert(is.Init); ok {
-			s = "(is_stream " + v + ")"
+		var name, meaning string
+		if f, k, okn, ok := t.okLookup(is.Init); ok {
+			name, meaning = okn, "(m_has "+k+" "+t.get(f)+")"
+		} else if v, okn, ok := streamAssertOk(is.Init); ok {
+			name, meaning = okn, "(is_stream "+v+")"
 		} else {
 			return "", fmt.Errorf("%s: if-init %s not recognised", t.method, "statement")
 		}
-		if neg {
-			s = "(negb " + s + ")"
+		// the condition may be any test built from the looked-up flag (ok, !ok, ok && …)
+		if t.subst == nil {
+			t.subst = map[string]string{}
 		}
-		return s, nil
+		old, had := t.subst[name]
+		t.subst[name] = meaning
+		s, err := t.cond(is.Cond)
+		if had {
+			t.subst[name] = old
+		} else {
+			delete(t.subst, name)
+		}
+		return s, err
 	}
 	return t.cond(is.Cond)
+}
+
+// a call, used as a condition, of a helper of the same file that returns one bool and does not change the
+// channel: its (normalised) body is translated in place.  ok = false: not such a call.
+func (t *chanTr) boolHelper(call *ast.CallExpr) (string, bool, error) {
+	if t.ctx == nil {
+		return "", false, nil
+	}
+	fn, err := t.ctx.helper(call)
+	if err != nil || fn == nil {
+		return "", false, err
+	}
+	if fn.Type.Results == nil || len(fn.Type.Results.List) != 1 || types.ExprString(fn.Type.Results.List[0].Type) != "bool" ||
+		len(fn.Type.Results.List[0].Names) > 0 {
+		return "", false, nil
+	}
+	l, err := t.ctx.inlineList(fn.Body.List, 1)
+	if err != nil {
+		return "", true, err
+	}
+	if l, err = t.ctx.normList(l, false); err != nil {
+		return "", true, err
+	}
+	locals := map[string]string{}
+	for k, v := range t.locals {
+		locals[k] = v
+	}
+	sub := &chanTr{recv: t.recv, fields: t.fields, consts: t.consts, params: t.params, method: t.method + "/" + fn.Name.Name,
+		locals: locals, retKind: "bool", ctx: t.ctx}
+	code, err := sub.body(l, "      ")
+	if err != nil {
+		return "", true, err
+	}
+	if strings.Contains(code, "ch_set_") || sub.deferred != "" {
+		return "", true, fmt.Errorf("%s: helper %s used as a condition changes the channel", t.method, fn.Name.Name)
+	}
+	return "(" + code + ")", true, nil
 }
 
 // a block that only transforms the state (no return); inLoop: `continue` ends the block
@@ -263,12 +353,27 @@ func (t *chanTr) state(l []ast.Stmt, inLoop bool, ind string) (string, error) {
 	rest := func() (string, error) { return t.state(l[1:], inLoop, ind) }
 	switch x := l[0].(type) {
 	case *ast.BranchStmt:
-		if x.Tok == token.CONTINUE && inLoop {
-			return "ch", nil
-		}
+		// every `continue` has been removed by the normalisation (chancode_norm.go: elimCont)
+		return "", fmt.Errorf("%s: %s not recognised in a state block", t.method, x.Tok)
 	case *ast.ReturnStmt:
 		return "", fmt.Errorf("%s: return inside a state block", t.method)
 	case *ast.AssignStmt:
+		// _, ok := ch.M[k]  (a statement of its own): ok is a flag read off the state at this point
+		if f, k, okn, ok := t.okLookup(x); ok {
+			t.locals[okn] = "bool"
+			r, err := rest()
+			return "let " + okn + " := (m_has " + k + " " + t.get(f) + ") in\n" + ind + r, err
+		}
+		// flag := <condition>
+		if x.Tok == token.DEFINE && len(x.Lhs) == 1 && len(x.Rhs) == 1 {
+			if id, ok := x.Lhs[0].(*ast.Ident); ok && id.Name != "_" {
+				if c, err := t.cond(x.Rhs[0]); err == nil {
+					t.locals[id.Name] = "bool"
+					r, err := rest()
+					return "let " + id.Name + " := " + c + " in\n" + ind + r, err
+				}
+			}
+		}
 		if len(x.Lhs) == 1 && len(x.Rhs) == 1 && x.Tok == token.ASSIGN {
 			// ch.M[k] = e
 			if ix, ok := x.Lhs[0].(*ast.IndexExpr); ok {
@@ -314,28 +419,25 @@ func (t *chanTr) state(l []ast.Stmt, inLoop bool, ind string) (string, error) {
 		if err != nil {
 			return "", err
 		}
-		// `if C { continue }` and friends: the then-branch ends the block
-		endsBlock := false
-		if n := len(x.Body.List); n > 0 {
-			if b, ok := x.Body.List[n-1].(*ast.BranchStmt); ok && b.Tok == token.CONTINUE {
-				endsBlock = true
-			}
-		}
 		th, err := t.state(x.Body.List, inLoop, ind+"  ")
 		if err != nil {
 			return "", err
 		}
+		el := "ch"
 		if x.Else != nil {
-			return "", fmt.Errorf("%s: else in a state block", t.method)
+			eb, ok := x.Else.(*ast.BlockStmt)
+			if !ok {
+				return "", fmt.Errorf("%s: else-if in a state block", t.method)
+			}
+			if el, err = t.state(eb.List, inLoop, ind+"  "); err != nil {
+				return "", err
+			}
 		}
 		r, err := rest()
 		if err != nil {
 			return "", err
 		}
-		if endsBlock {
-			return "if " + c + " then " + paren(th) + "\n" + ind + "else " + paren(r), nil
-		}
-		return "let ch := (if " + c + " then " + paren(th) + " else ch) in\n" + ind + r, nil
+		return "let ch := (if " + c + " then " + paren(th) + " else " + paren(el) + ") in\n" + ind + r, nil
 	case *ast.RangeStmt:
 		s, err := t.rangeState(x, ind)
 		if err != nil {
@@ -454,7 +556,7 @@ func (t *chanTr) rangeState(rs *ast.RangeStmt, ind string) (string, error) {
 	// for k, v := range ch.M { if sr, ok := v.(streamReader); ok { sr.close(); delete(ch.M, k) } }
 	if len(rs.Body.List) == 1 && k != "_" && v != "_" {
 		if is, ok := rs.Body.List[0].(*ast.IfStmt); ok && is.Init != nil && is.Else == nil {
-			if sv, ok := streamAssert(is.Init); ok && sv == v && types.ExprString(is.Cond) == "ok" {
+			if sv, okn, ok := streamAssertOk(is.Init); ok && sv == v && types.ExprString(is.Cond) == okn {
 				del := false
 				for _, s := range is.Body.List {
 					if call, ok := isCallNamed(s, "delete"); ok && len(call.Args) == 2 {
@@ -515,6 +617,10 @@ func (t *chanTr) retExpr(r *ast.ReturnStmt) (string, error) {
 		st = "(" + t.deferred + " ch)"
 	}
 	switch t.retKind {
+	case "bool":
+		if len(r.Results) == 1 && t.deferred == "" {
+			return t.cond(r.Results[0])
+		}
 	case "state":
 		if len(r.Results) == 0 || (len(r.Results) == 1 && isNil(r.Results[0])) {
 			return st, nil
@@ -533,7 +639,7 @@ func (t *chanTr) retExpr(r *ast.ReturnStmt) (string, error) {
 			switch {
 			case isNil(v) && okb == "false" && isNil(e):
 				return "(" + st + ", Ok None)", nil
-			case isNil(v) && okb == "false" && types.ExprString(e) == "err":
+			case isNil(v) && okb == "false" && t.mergeErr != "" && types.ExprString(e) == t.mergeErr:
 				return "(" + st + ", merr)", nil // only reached in the error branch of mergeValues, see below
 			case okb == "true" && isNil(e):
 				ve, err := t.getVal(v)
@@ -559,8 +665,8 @@ func exprList(l []ast.Expr) string {
 func (t *chanTr) getVal(e ast.Expr) (string, error) {
 	switch x := e.(type) {
 	case *ast.Ident:
-		if x.Name == "v" {
-			return "v", nil
+		if t.mergeVal != "" && x.Name == t.mergeVal {
+			return x.Name, nil
 		}
 	case *ast.IndexExpr:
 		if id, ok := x.X.(*ast.Ident); ok && t.locals[id.Name] == "vlist" {
@@ -604,22 +710,36 @@ func (t *chanTr) body(l []ast.Stmt, ind string) (string, error) {
 		r, err := rest()
 		return "let deferred := (fun ch : chan V =>\n" + ind + "    " + d + ") in\n" + ind + r, err
 	case *ast.IfStmt:
+		if !containsReturn(x) {
+			// a state transformer (with or without else)
+			s, err := t.state(l[:1], false, ind)
+			if err != nil {
+				return "", err
+			}
+			r, err := rest()
+			return strings.TrimSuffix(s, "ch") + r, err
+		}
 		c, err := t.ifCond(x)
 		if err != nil {
 			return "", err
 		}
 		if alwaysReturns(x.Body.List) {
+			// a defer registered inside the arm is in force on the paths through the arm only
+			saved := t.deferred
 			th, err := t.body(x.Body.List, ind+"  ")
+			t.deferred = saved
 			if err != nil {
 				return "", err
 			}
 			var el string
 			if x.Else != nil {
+				// (only with an init statement: the normalisation hoists the else of a plain if) both arms return, or
+				// the else arm goes on with the rest of the method
 				eb, ok := x.Else.(*ast.BlockStmt)
-				if !ok || len(l) > 1 {
-					return "", fmt.Errorf("%s: else-if / statements after a returning if-else", t.method)
+				if !ok {
+					return "", fmt.Errorf("%s: else-if after a returning if", t.method)
 				}
-				el, err = t.body(eb.List, ind+"  ")
+				el, err = t.body(append(append([]ast.Stmt{}, eb.List...), l[1:]...), ind+"  ")
 			} else {
 				el, err = rest()
 			}
@@ -628,15 +748,7 @@ func (t *chanTr) body(l []ast.Stmt, ind string) (string, error) {
 			}
 			return "if " + c + " then " + paren(th) + "\n" + ind + "else " + el, nil
 		}
-		if containsReturn(x.Body) || x.Else != nil {
-			return "", fmt.Errorf("%s: if that returns on some paths only", t.method)
-		}
-		th, err := t.state(x.Body.List, false, ind+"  ")
-		if err != nil {
-			return "", err
-		}
-		r, err := rest()
-		return "let ch := (if " + c + " then " + paren(th) + " else ch) in\n" + ind + r, err
+		return "", fmt.Errorf("%s: if that returns on some paths only", t.method)
 	case *ast.RangeStmt:
 		// search loop: for _, s := range ch.M { if C(s) { return R } }
 		if f, ok := t.fieldOf(x.X); ok && containsReturn(x.Body) {
@@ -704,7 +816,10 @@ func (t *chanTr) body(l []ast.Stmt, ind string) (string, error) {
 	case *ast.AssignStmt:
 		// flag := true  |  l := make([]any, 0, …)  |  v, err := mergeValues(l)
 		if x.Tok == token.DEFINE && len(x.Lhs) == 1 && len(x.Rhs) == 1 {
-			id := x.Lhs[0].(*ast.Ident)
+			id, isId := x.Lhs[0].(*ast.Ident)
+			if !isId {
+				return "", fmt.Errorf("%s: definition of %s", t.method, types.ExprString(x.Lhs[0]))
+			}
 			if b := types.ExprString(x.Rhs[0]); b == "true" || b == "false" {
 				t.locals[id.Name] = "bool"
 				r, err := rest()
@@ -720,14 +835,15 @@ func (t *chanTr) body(l []ast.Stmt, ind string) (string, error) {
 				}
 			}
 		}
-		if x.Tok == token.DEFINE && len(x.Lhs) == 2 && len(x.Rhs) == 1 && exprList(x.Lhs) == "v,err" {
+		if mv, me, ok := chanTwoNames(x); ok && x.Tok == token.DEFINE && len(x.Rhs) == 1 {
 			if call, ok := x.Rhs[0].(*ast.CallExpr); ok && types.ExprString(call.Fun) == "mergeValues" && len(call.Args) == 1 {
 				if a, ok := call.Args[0].(*ast.Ident); ok && t.locals[a.Name] == "vlist" {
+					t.mergeVal, t.mergeErr = mv, me
 					// v, err := mergeValues(l); if err != nil { return nil, false, err }; return v, true, nil
 					if len(l) == 3 {
 						is, ok1 := l[1].(*ast.IfStmt)
 						ret, ok2 := l[2].(*ast.ReturnStmt)
-						if ok1 && ok2 && squash(types.ExprString(is.Cond)) == "err!=nil" && len(is.Body.List) == 1 {
+						if ok1 && ok2 && is.Init == nil && is.Else == nil && squash(types.ExprString(is.Cond)) == me+"!=nil" && len(is.Body.List) == 1 {
 							if eret, ok := is.Body.List[0].(*ast.ReturnStmt); ok {
 								ee, err := t.retExpr(eret)
 								if err != nil {
@@ -738,7 +854,7 @@ func (t *chanTr) body(l []ast.Stmt, ind string) (string, error) {
 									return "", err
 								}
 								// the error return hands the state on WITHOUT the value; both go through the deferred reset
-								return "match merge_values " + a.Name + " with\n" + ind + "| Ok v => " + oe + "\n" + ind + "| Err e => let merr := @Err (option V) e in " + ee + "\n" + ind + "| Panic => let merr := @Panic (option V) in " + ee + "\n" + ind + "end", nil
+								return "match merge_values " + a.Name + " with\n" + ind + "| Ok " + mv + " => " + oe + "\n" + ind + "| Err e => let merr := @Err (option V) e in " + ee + "\n" + ind + "| Panic => let merr := @Panic (option V) in " + ee + "\n" + ind + "end", nil
 							}
 						}
 					}
@@ -754,6 +870,19 @@ func (t *chanTr) body(l []ast.Stmt, ind string) (string, error) {
 		return strings.TrimSuffix(s, "ch") + r, err
 	}
 	return "", fmt.Errorf("%s: statement not recognised", t.method)
+}
+
+// the two names on the left of `v, err := …`
+func chanTwoNames(as *ast.AssignStmt) (string, string, bool) {
+	if len(as.Lhs) != 2 {
+		return "", "", false
+	}
+	a, ok1 := as.Lhs[0].(*ast.Ident)
+	b, ok2 := as.Lhs[1].(*ast.Ident)
+	if !ok1 || !ok2 || a.Name == "_" || b.Name == "_" {
+		return "", "", false
+	}
+	return a.Name, b.Name, true
 }
 
 // condition on the loop's value variable
@@ -830,6 +959,7 @@ func extractChanCode(repo string) (string, string, error) {
 	consts := map[string]string{"dependencyStateWaiting": "Waiting", "dependencyStateReady": "Ready", "dependencyStateSkipped": "Skipped"}
 	type m struct {
 		file            *ast.File
+		src             string
 		typ, name, out  string
 		retKind         string
 		params          map[string]string
@@ -840,12 +970,12 @@ func extractChanCode(repo string) (string, string, error) {
 	dagFields := map[string]string{"ControlPredecessors": "ctrl", "DataPredecessors": "data", "Skipped": "skipped", "Values": "vals"}
 	preFields := map[string]string{"Values": "vals"}
 	ms := []m{
-		{dag, "dagChannel", "reportValues", "dag_reportValues", "state", map[string]string{"ins": "kvlist"}, "(ch : chan V) (ins : list (key * V)) : chan V", dagFields, nil},
-		{dag, "dagChannel", "reportDependencies", "dag_reportDependencies", "state", map[string]string{"dependencies": "keylist"}, "(ch : chan V) (dependencies : list key) : chan V", dagFields, nil},
-		{dag, "dagChannel", "reportSkip", "dag_reportSkip", "state_bool", map[string]string{"keys": "keylist"}, "(ch : chan V) (keys : list key) : chan V * bool", dagFields, nil},
-		{dag, "dagChannel", "get", "dag_get", "get", map[string]string{"isStream": "bool"}, "(ch : chan V) (isStream : bool) : chan V * res (option V)", dagFields, nil},
-		{pre, "pregelChannel", "reportValues", "pregel_reportValues", "state", map[string]string{"ins": "kvlist"}, "(ch : chan V) (ins : list (key * V)) : chan V", preFields, nil},
-		{pre, "pregelChannel", "get", "pregel_get", "get", map[string]string{}, "(ch : chan V) : chan V * res (option V)", preFields, nil},
+		{dag, "dag.go", "dagChannel", "reportValues", "dag_reportValues", "state", map[string]string{"ins": "kvlist"}, "(ch : chan V) (ins : list (key * V)) : chan V", dagFields, []string{"ins"}},
+		{dag, "dag.go", "dagChannel", "reportDependencies", "dag_reportDependencies", "state", map[string]string{"dependencies": "keylist"}, "(ch : chan V) (dependencies : list key) : chan V", dagFields, []string{"dependencies"}},
+		{dag, "dag.go", "dagChannel", "reportSkip", "dag_reportSkip", "state_bool", map[string]string{"keys": "keylist"}, "(ch : chan V) (keys : list key) : chan V * bool", dagFields, []string{"keys"}},
+		{dag, "dag.go", "dagChannel", "get", "dag_get", "get", map[string]string{"isStream": "bool"}, "(ch : chan V) (isStream : bool) : chan V * res (option V)", dagFields, []string{"isStream"}},
+		{pre, "pregel.go", "pregelChannel", "reportValues", "pregel_reportValues", "state", map[string]string{"ins": "kvlist"}, "(ch : chan V) (ins : list (key * V)) : chan V", preFields, []string{"ins"}},
+		{pre, "pregel.go", "pregelChannel", "get", "pregel_get", "get", map[string]string{}, "(ch : chan V) : chan V * res (option V)", preFields, []string{"isStream_"}},
 	}
 	var b strings.Builder
 	b.WriteString("(* Gen/ChanCode.v — GENERATED by tools/go2v (extractor \"chancode\") from compose/dag.go and\n")
@@ -854,31 +984,19 @@ func extractChanCode(repo string) (string, string, error) {
 	b.WriteString("Definition tie_available : bool := true.\n\n")
 	b.WriteString("Section Gen.\n  Variable V : Type.\n  Variable is_stream : V -> bool.\n  Variable merge_values : list V -> res V.\n  Variables zero_value empty_stream : V.\n\n")
 	for _, x := range ms {
-		fn := methodOf(x.file, x.typ, x.name)
-		if fn == nil || fn.Body == nil {
+		if fn := methodOf(x.file, x.typ, x.name); fn == nil || fn.Body == nil {
 			return "", "", fmt.Errorf("method (*%s).%s not found", x.typ, x.name)
 		}
-		recv := ""
-		if len(fn.Recv.List[0].Names) == 1 {
-			recv = fn.Recv.List[0].Names[0].Name
+		// a normalised copy of the method (chancode_norm.go): parameters named as in the signature above, helpers
+		// inlined, switch / else-if / continue brought to one shape
+		ctx := &chanNormCtx{path: filepath.Join(repo, "compose", x.src), recvType: x.typ}
+		fn, err := ctx.method(x.name, x.paramNamesInSig)
+		if err != nil {
+			return "", "", err
 		}
-		// parameter names must be the ones the signature above uses
-		var pn []string
-		for _, fl := range fn.Type.Params.List {
-			for _, n := range fl.Names {
-				pn = append(pn, n.Name)
-			}
-		}
-		for _, n := range pn {
-			if n != "_" && x.params[n] == "" {
-				return "", "", fmt.Errorf("(*%s).%s: unexpected parameter %s", x.typ, x.name, n)
-			}
-		}
-		if len(pn) < len(x.params) {
-			return "", "", fmt.Errorf("(*%s).%s: parameters %v", x.typ, x.name, pn)
-		}
+		recv := ctx.recv
 		t := &chanTr{recv: recv, fields: x.fields, consts: consts, params: x.params, method: x.typ + "." + x.name,
-			locals: map[string]string{}, retKind: x.retKind}
+			locals: map[string]string{}, retKind: x.retKind, ctx: ctx}
 		code, err := t.body(fn.Body.List, "    ")
 		if err != nil {
 			return "", "", err
